@@ -38,6 +38,9 @@ def extract_numer(self, axis, index, classes=(), recursive=True):
                example=self)
     obj = obj.cast(classes)
     obj._readonly_ = self._readonly_
+    if obj._readonly_:              # NumPy may have returned a copy
+        Qube._array_to_readonly(obj._values_)
+        Qube._array_to_readonly(obj._mask_)
 
     # Slice the derivatives if necessary
     if recursive:
@@ -80,6 +83,9 @@ def extract_denom(self, axis, index, classes=()):
                example=self)
     obj = obj.cast((type(self),) + classes)
     obj._readonly_ = self._readonly_
+    if obj._readonly_:              # NumPy may have returned a copy
+        Qube._array_to_readonly(obj._values_)
+        Qube._array_to_readonly(obj._mask_)
 
     return obj
 
@@ -101,6 +107,9 @@ def extract_denoms(self):
         obj = Qube.__new__(type(self))
         obj.__init__(self._values_[...,k], self._mask_, drank=0, example=self)
         obj._readonly_ = self._readonly_
+        if obj._readonly_:              # NumPy may have returned a copy
+            Qube._array_to_readonly(obj._values_)
+            Qube._array_to_readonly(obj._mask_)
         objects.append(obj)
 
     return objects
@@ -140,6 +149,9 @@ def slice_numer(self, axis, index1, index2, classes=(), recursive=True):
     obj = Qube(new_values, self._mask_, example=self)
     obj = obj.cast(classes)
     obj._readonly_ = self._readonly_
+    if obj._readonly_:              # NumPy may have returned a copy
+        Qube._array_to_readonly(obj._values_)
+        Qube._array_to_readonly(obj._mask_)
 
     # Slice the derivatives if necessary
     if recursive:
@@ -193,6 +205,9 @@ def transpose_numer(self, axis1=0, axis2=1, recursive=True):
     obj = Qube.__new__(type(self))
     obj.__init__(new_values, self._mask_, example=self)
     obj._readonly_ = self._readonly_
+    if obj._readonly_:              # NumPy may have returned a copy
+        Qube._array_to_readonly(obj._values_)
+        Qube._array_to_readonly(obj._mask_)
 
     if recursive:
         for (key, deriv) in self._derivs_.items():
@@ -295,6 +310,9 @@ def transpose_denom(self, axis1=0, axis2=1):
     obj = Qube.__new__(type(self))
     obj.__init__(new_values, self._mask_, example=self)
     obj._readonly_ = self._readonly_
+    if obj._readonly_:              # NumPy may have returned a copy
+        Qube._array_to_readonly(obj._values_)
+        Qube._array_to_readonly(obj._mask_)
 
     return obj
 
@@ -356,6 +374,9 @@ def join_items(self, classes):
                example=self)
     obj = obj.cast(classes)
     obj._readonly_ = self._readonly_
+    if obj._readonly_:              # NumPy may have returned a copy
+        Qube._array_to_readonly(obj._values_)
+        Qube._array_to_readonly(obj._mask_)
 
     return obj
 
@@ -377,6 +398,9 @@ def split_items(self, nrank, classes):
                example=self)
     obj = obj.cast(classes)
     obj._readonly_ = self._readonly_
+    if obj._readonly_:              # NumPy may have returned a copy
+        Qube._array_to_readonly(obj._values_)
+        Qube._array_to_readonly(obj._mask_)
 
     return obj
 
@@ -402,6 +426,9 @@ def swap_items(self, classes):
                nrank=self._drank_, drank=self._nrank_, example=self)
     obj = obj.cast(classes)
     obj._readonly_ = self._readonly_
+    if obj._readonly_:              # NumPy may have returned a copy
+        Qube._array_to_readonly(obj._values_)
+        Qube._array_to_readonly(obj._mask_)
 
     return obj
 
